@@ -179,7 +179,11 @@ def drv_hist(c, ctx, col):
         col.state((formula, train_idx, output, d0))
         names0 = list(spec.column_names)
         dom = POOL.iloc[rows].reset_index(drop=True)
-        W = dense(pickle.loads(pickle.dumps(spec)).get_model_matrix(dom))
+        try:
+            W = dense(pickle.loads(pickle.dumps(spec)).get_model_matrix(dom))
+        except Exception as e:  # noqa
+            col.violation(key, dict(detail, error="%s: %s" % (type(e).__name__, str(e)[:300])), sig="hist:pickled-spec-raised:" + type(e).__name__)
+            return
         cur = spec
         for step, (ev, arg) in enumerate(hist):
             try:
